@@ -48,6 +48,8 @@ def gen_plan(rng, cfg, tier):
   extra = []
   for _ in range(rng.choice([0, 0, 1, 2])):
     extra.append(rng.choice([['cachefull'], ['cachefull'], ['cachespace'], ['advance', 4.0], ['advance', 29.0]]))
+  if rng.random() < 0.15:
+    extra.append(['walljump', rng.choice([3600.0, 45.0, -45.0, -3600.0])])
   plan = {'prop': PROP, 'clients': clients, 'steps': ig.gen_steps(rng, clients, extra)}
   plan['late_connect'] = rng.random() < 0.6
   plan['finish_reset'] = [i for i in range(len(clients)) if rng.random() < 0.25]
